@@ -694,7 +694,7 @@ impl Check for C06 {
     fn meta(&self) -> Meta {
         Meta {
             level: "fault_enumeration",
-            rule: "adversarial peer scripts (1-5 unidirectional streams of every type and 1-3 request/response streams built from valid traffic plus grammar mutations - length fields off by +-1/+-k/huge, non-minimal and truncated varints, swapped types, QPACK-level mutations: dynamic references, out-of-range indices, truncated and over-long integers, bad Huffman padding, malformed messages, one run in two hundred a field section with 3 000 to 50 000 one-byte field lines - and byte mutations; steps of all streams interleaved) x one injected fault whose kind (FIN, RESET, STOP_SENDING, close NO_ERROR / error code, timeout, transport internal / undefined error, stream read / write error, none) and step index (0..23) are enumerated systematically over the run index x drawn chunking, task order, spurious polls, both roles, whole and split streams; liveness judged in two stages at exact quiescence (stage 1: peer ends/aborts every stream, grants all credit, connection open -> every stream call completes; stage 2: connection closed -> every future completes); non-trivial = at least 3 script steps executed and >= 2 chunk deliveries; distinct = distinct schedule signatures",
+            rule: "adversarial peer scripts (1-5 unidirectional streams of every type and 1-3 request/response streams built from valid traffic plus grammar mutations - length fields off by +-1/+-k/huge, non-minimal and truncated varints, swapped types, QPACK-level mutations: dynamic references, out-of-range indices, truncated and over-long integers, bad Huffman padding, malformed messages, one run in two hundred a field section with 3 000 to 50 000 one-byte field lines - and byte mutations; steps of all streams interleaved) x one injected fault whose kind (FIN, RESET, STOP_SENDING, close NO_ERROR / error code, timeout, transport internal / undefined error, stream read / write error, none) and step index (0..23) are enumerated systematically over the run index x drawn chunking, task order, spurious polls, both roles, whole and split streams; liveness judged in two stages at exact quiescence (stage 1: peer ends/aborts every stream, grants all credit, connection open -> every stream call completes; stage 2: connection closed -> every future completes); one run in sixteen instead reads a raw stream through h3::stream::BufRecvStream (what WebTransport streams are read through): drawn bytes in drawn chunks ended by FIN, RESET, a connection close or nothing, read through the quic::RecvStream trait, tokio's AsyncRead with one ReadBuf kept across calls as read_exact keeps it, or the futures AsyncRead - no panic, every read completes once the stream or the connection has ended, what was read is a prefix of (with FIN: all of) what was written; non-trivial = at least 3 script steps executed and >= 2 chunk deliveries; distinct = distinct schedule signatures",
             real: &["all of h3 (client, server, connection, frame, stream, buf, proto, qpack)"],
             stub: &["QUIC transport (SimQuic)", "executor (simexec)", "peer (adversarial script)", "applications (documented call patterns, drawn behaviour after an error)"],
             assumptions: &["transport contract: non-empty chunks, valid stream ids", "which error is returned is not judged here (C02-C04, C07)"],
